@@ -432,10 +432,15 @@ func (r *Run) Sharded(n int, work func(shard, n int)) {
 	var wg sync.WaitGroup
 	outs := make([]string, n)
 	errs := make([]string, n)
+	// at most 16 worker processes at a time: a check may ask for more (smaller) shards than
+	// cores to bound the memory of one worker
+	slots := make(chan struct{}, 16)
 	for i := 0; i < n; i++ {
 		wg.Add(1)
 		go func(i int) {
 			defer wg.Done()
+			slots <- struct{}{}
+			defer func() { <-slots }()
 			outs[i] = filepath.Join(dir, fmt.Sprintf("s%d.json", i))
 			cmd := exec.Command(os.Args[0], os.Args[1:]...)
 			cmd.Env = append(os.Environ(), fmt.Sprintf("VERIF_SHARD=%d/%d", i, n), "VERIF_SHARD_OUT="+outs[i])
